@@ -3,6 +3,7 @@ package rules
 import (
 	"fmt"
 	"go/ast"
+	"go/token"
 	"go/types"
 	"strings"
 
@@ -278,4 +279,108 @@ func exactCapacity(info *types.Info, fd *ast.FuncDecl, self *types.Func, ps map[
 		return "a local that is not defined once (" + x.Name + ")", false
 	}
 	return "an expression the rule does not follow", false
+}
+
+// FillEvery (R-FLOW/fillall): `out := make([]T, len(xs))` followed by a loop
+// that stores `out[i] = f(xs[i])` promises one result per element. A
+// `continue` before the store leaves that element at T's zero value — which is
+// a value like any other to whoever reads the slice (enum number 0 is
+// UNSPECIFIED, the empty string is a name). Every iteration either stores or
+// leaves the function.
+func FillEvery(r *core.Run, rels []string) {
+	r.Rule("R-FLOW/fillall", "where a slice is made with the length of a collection (make([]T, len(xs))) and a range loop over that collection stores into it by the loop index at the top level of its body, no `continue` precedes the store: an element that is skipped would stay at the zero value, which is data to the reader of the slice")
+	for _, rel := range rels {
+		pk := r.P.Pkg(rel)
+		if pk == nil {
+			r.Fatal("anchor: package %s not found", rel)
+			continue
+		}
+		info := pk.TypesInfo
+		core.AllFuncDecls(pk, func(fd *ast.FuncDecl) {
+			if fd.Body == nil {
+				return
+			}
+			// out -> xs for `out := make([]T, len(xs))`
+			sized := map[types.Object]string{}
+			ast.Inspect(fd.Body, func(n ast.Node) bool {
+				as, ok := n.(*ast.AssignStmt)
+				if !ok || len(as.Lhs) != len(as.Rhs) {
+					return true
+				}
+				for i, rh := range as.Rhs {
+					c, ok := core.Unparen(rh).(*ast.CallExpr)
+					if !ok || core.CalleeName(info, c) != "builtin.make" || len(c.Args) != 2 {
+						continue
+					}
+					lc, ok := core.Unparen(c.Args[1]).(*ast.CallExpr)
+					if !ok || core.CalleeName(info, lc) != "builtin.len" {
+						continue
+					}
+					if id, ok := as.Lhs[i].(*ast.Ident); ok {
+						sized[info.ObjectOf(id)] = core.NormExpr(info, lc.Args[0])
+					}
+				}
+				return true
+			})
+			if len(sized) == 0 {
+				return
+			}
+			ast.Inspect(fd.Body, func(n ast.Node) bool {
+				rs, ok := n.(*ast.RangeStmt)
+				if !ok {
+					return true
+				}
+				key, ok := rs.Key.(*ast.Ident)
+				if !ok || key.Name == "_" {
+					return true
+				}
+				kobj := info.ObjectOf(key)
+				over := core.NormExpr(info, rs.X)
+				for _, st := range rs.Body.List {
+					as, ok := st.(*ast.AssignStmt)
+					if !ok || len(as.Lhs) != 1 {
+						continue
+					}
+					ix, ok := core.Unparen(as.Lhs[0]).(*ast.IndexExpr)
+					if !ok {
+						continue
+					}
+					sid, ok := core.Unparen(ix.X).(*ast.Ident)
+					if !ok {
+						continue
+					}
+					xs, isSized := sized[info.ObjectOf(sid)]
+					iid, isIdx := core.Unparen(ix.Index).(*ast.Ident)
+					if !isSized || xs != over || !isIdx || info.ObjectOf(iid) != kobj {
+						continue
+					}
+					o := r.Add("R-FLOW/fillall", fmt.Sprintf("%s.%s | %s filled per element of %s", rel, core.FuncName(fd), core.TypeStr(info.TypeOf(sid)), over), as.Pos(), "result slice with one element per input element")
+					var skip ast.Node
+					for _, prev := range rs.Body.List {
+						if prev.Pos() >= as.Pos() {
+							break
+						}
+						ast.Inspect(prev, func(m ast.Node) bool {
+							switch y := m.(type) {
+							case *ast.ForStmt, *ast.RangeStmt, *ast.FuncLit:
+								return false
+							case *ast.BranchStmt:
+								if y.Tok == token.CONTINUE && skip == nil {
+									skip = y
+								}
+							}
+							return true
+						})
+					}
+					if skip != nil {
+						o.Pos = r.P.Rel(skip.Pos())
+						o.Fail("an iteration can `continue` before it stores its element: the slot keeps the zero value, which the reader of the slice takes for a result (0 is the number of UNSPECIFIED)")
+					} else {
+						o.Auto("every iteration that goes on stores its element")
+					}
+				}
+				return true
+			})
+		})
+	}
 }
